@@ -17,7 +17,7 @@ ALL_FIXES = frozenset({'stop_notify_enqueuers', 'stopped_flag', 'batch_recheck_d
 
 
 def make(prods, cons, *, cap=1, stoppers=None, declared=None, timeout=False, ignore_error=False, fixes=ALL_FIXES,
-         shared=None):
+         shared=None, pool=0):
   """shared: None or (n_items, fail_at): producers are pool workers over ONE shared input.
   cons may use ('diter', num_steps): DequeueIterator inside MultiplexIterator."""
   """prods: {name: (n_items, fail_at)}; cons: {name: ('get',) | ('batch', K, block)}; stoppers: {name: with_exc}."""
@@ -26,7 +26,7 @@ def make(prods, cons, *, cap=1, stoppers=None, declared=None, timeout=False, ign
       Prods=set(prods), Cons=set(cons), Stoppers=set(stoppers), Cap=cap,
       DeclaredMax=len(prods) if declared is None else declared, Timeout=timeout, IgnoreError=ignore_error,
       Fixes=set(fixes), Shared=bool(shared), SrcN=(shared[0] if shared else 0), SrcFail=(shared[1] if shared else 0),
-      Steps='<- mc_Steps',
+      Steps='<- mc_Steps', PoolSize=pool,
       N='<- mc_N', FailAt='<- mc_FailAt', Mode='<- mc_Mode', K='<- mc_K', Block='<- mc_Block', StopExc='<- mc_StopExc')
   defs = dict(
       mc_N=fn({p: v[0] for p, v in prods.items()}),
